@@ -55,7 +55,7 @@ class RoundTripLeg(object):
         from hypothesis import strategies as st
 
         key = st.one_of(
-            st.sampled_from(["ID", "Name", "Parent", "gene_id", "note"]),
+            st.sampled_from(["ID", "Name", "Parent", "gene_id", "note", "product", "description", "Note", "Dbxref", "Ontology_term", "Alias"]),
             st.from_regex(r"[A-Za-z_][A-Za-z0-9_.\-]{0,6}", fullmatch=True),
         )
         structural = list("\t\n\r%;=&,\" ab1") + ["\x00", "\x1f", "\x7f", "\x85", " ", "é", "%3B", "%25", "\\t"]
@@ -63,6 +63,8 @@ class RoundTripLeg(object):
             st.text(alphabet=st.characters(blacklist_categories=("Cs",)), min_size=1, max_size=8),
             st.lists(st.sampled_from(structural), min_size=1, max_size=6).map("".join),
             st.sampled_from(["a", "1", "x y", '"', '""', '"q"', " ", "  a  ", "%", "%41", ",", ";", "a;b=c", "\t", "\n"]),
+            # text that looks like an HTML / XML entity or a URL query is ordinary text
+            st.sampled_from(["&lt;", "AT&amp;T", "&#65;", "&#x41", "a&copy=1", "x=1&sect=2", "&amp;amp;", "&", "&&", "&;", "+", "a+b", "%2B"]),
         )
         gtf_chars = st.characters(blacklist_categories=("Cs", "Cc"), blacklist_characters=';",')
         v_gtf = st.one_of(
